@@ -79,7 +79,8 @@ def write(prop, tier, seed, results, wall, wall_batch, n_violation_keys, known, 
     probes = {k: v for k, v in sorted(stats.items()) if k.startswith('probe:')}
     faults = {k: v for k, v in sorted(stats.items()) if k.startswith('fault:')}
     decisions = {k: v for k, v in sorted(stats.items()) if k.startswith('decision:')}
-    obs = {k: v for k, v in sorted(stats.items()) if k.startswith('obs:')}
+    obs = {k: v for k, v in sorted(stats.items()) if k.startswith(('obs:', 'instr:'))}
+    unjudged = {k: v for k, v in sorted(stats.items()) if not k.startswith(('obs:', 'instr:', 'probe:', 'fault:', 'decision:', 'enum:'))}
     zero_probes = [k for k in getattr(eng, 'expected_probes', lambda p: [])(prop) if not stats.get(k)]
     hours = max(wall_batch, 1e-9) / 3600.0
     doc = {
@@ -104,6 +105,7 @@ def write(prop, tier, seed, results, wall, wall_batch, n_violation_keys, known, 
             'probes_stuck_at_zero': zero_probes,
             'decisions': decisions,
             'observer_calls': obs,
+            'other_counters': unjudged,
             'calibration_max_error_over_tolerance': {k: round(v, 6) for k, v in sorted(max_ratio.items())},
             'largest_allowances_granted': allow,
             'violations_of_other_properties_seen_and_ignored_here': dict(other),
